@@ -8,6 +8,7 @@ field-by-field model; acknowledged export => lossless (DESIGN.md section 4, C13)
 import copy
 import math
 import numbers
+import pathlib
 
 import numpy as np
 
@@ -192,7 +193,7 @@ class C13(OptEngineBase):
     SWEEP_MENU = {"disk": WRITE_FAULTS}
     ENGINE_NAME = "simio"
     TIERS = {
-        "quick": {"runs": 6000, "budget_s": 75, "chunk": 32},
+        "quick": {"runs": 4500, "budget_s": 75, "chunk": 32},
         "thorough": {"runs": 200000, "budget_s": 900, "chunk": 64},
     }
     RULE = (
@@ -242,6 +243,8 @@ class C13(OptEngineBase):
                         ops.append({"op": "mutate", "what": rng.choice(["information", "estimate", "vertex", "param"]), "k": rng.randrange(1000),
                                     "scale": rng.choice([2.0, 0.5, 3.0, 1.0 + 2.0 ** -40])})
                 ops.append({"op": "export", "path": cur})
+                if rng.random() < 0.1:
+                    ops[-1]["pathlib"] = True
                 r = rng.random()
                 if r < 0.25:
                     ops.append({"op": "export_again", "path": cur})
@@ -373,7 +376,7 @@ class C13(OptEngineBase):
                     fired_before = len(w.plan.fired)
                     raised = None
                     try:
-                        g.to_g2o(op["path"])
+                        g.to_g2o(pathlib.PurePosixPath(op["path"]) if op.get("pathlib") else op["path"])
                     except Exception as e:  # noqa
                         raised = e
                     fired_kinds = {f["kind"] for f in w.plan.fired[fired_before:]}
